@@ -293,3 +293,265 @@ theorem tokenize_name (vars : VarEnv) (x : Str) (v : Val) (hv : vars.lookup x = 
   simp only [hv, Outcome.bind_ok]
 
 end Duckling
+
+namespace Duckling
+
+/-! ### names whose first letter is T or F: the Boolean class takes the first characters, gives up where the name departs from
+    TRUE / FALSE, the scanner goes back to the start of the name with the Boolean class black-listed, and the Variable class reads it -/
+
+/-- the scanner inside the Boolean token after `j` characters that agree with the keyword -/
+def boolSt (x : Str) (j : Nat) (k : KwSt) : LS :=
+  { idx := j, start := 0, tok := some (.kw .bool k), isOp := false, str := x.take j, out := [], black := [] }
+
+/-- the scanner back at the start of the name, the Boolean class black-listed -/
+def resetSt : LS := { idx := 0, start := 0, tok := none, isOp := false, str := [], out := [], black := [.bool] }
+
+/-- `x` departs from the keyword `B` at position `d`: they agree on the first `d ≥ 1` characters, both go on, and differ there -/
+structure Departs (x B : Str) (d : Nat) : Prop where
+  pos : 1 ≤ d
+  ltx : d < x.length
+  ltB : d < B.length
+  agree : x.take d = B.take d
+  differ : ∀ (h1 : d < x.length) (h2 : d < B.length), x[d] ≠ B[d]
+
+theorem getElem_of_take_eq (x B : Str) (d j : Nat) (h : x.take d = B.take d) (hj : j < d) (h1 : j < x.length) (h2 : j < B.length) :
+    x[j] = B[j] := by
+  have e1 : (x.take d)[j]? = x[j]? := by simp [List.getElem?_take, hj]
+  have e2 : (B.take d)[j]? = B[j]? := by simp [List.getElem?_take, hj]
+  rw [h, e2] at e1
+  simpa [List.getElem?_eq_getElem h1, List.getElem?_eq_getElem h2] using e1.symm
+
+theorem take_of_take_eq (x B : Str) (d j : Nat) (h : x.take d = B.take d) (hj : j ≤ d) : x.take j = B.take j := by
+  have := congrArg (List.take j) h
+  simpa [List.take_take, Nat.min_eq_left hj] using this
+
+/-- a character inside the Boolean token while the name still agrees with the keyword -/
+theorem lexStep_bool_agree (vars : List Str) (x B : Str) (iB : Nat) (hiB : iB < boolKws.length) (hB : boolKws.getD iB [] = B)
+    (d : Nat) (hd : Departs x B d) (j : Nat) (hj1 : j + 1 ≤ d) (k : KwSt) (hk : KwInv boolKws B j k) :
+    ∃ k', lexStep vars (x[j]'(by have := hd.ltx; omega)) (boolSt x j k) = .ok (boolSt x (j + 1) k') ∧ KwInv boolKws B (j + 1) k' := by
+  have hjx : j < x.length := by have := hd.ltx; omega
+  have hjB : j < B.length := by have := hd.ltB; omega
+  have hch : x[j] = B[j] := getElem_of_take_eq x B d j hd.agree (by omega) hjx hjB
+  obtain ⟨k', r, hadd, hinv, hr⟩ := kwAdd_name boolKws B iB hiB hB j hjB k hk
+  have hrT : r = .T := by
+    rcases hr with h | ⟨_, hend⟩
+    · exact h
+    · have := hd.ltB; omega
+  subst hrT
+  have hkws : k.kws.isEmpty = false := by rw [hk.1]; decide
+  refine ⟨k', ?_, hinv⟩
+  rw [hch]
+  simp only [lexStep, boolSt, addChar, hkws, Bool.false_eq_true, if_false, hadd, Outcome.bind_ok, resolve]
+  rw [← hch, take_succ_eq x j hjx]
+
+/-- the keyword list has no entry that goes on from `B.take d` with a character other than `B[d]` -/
+def BoolGivesUp (B : Str) (iB : Nat) : Prop :=
+  ∀ (d : Nat) (c : Char) (hd : d < B.length), 1 ≤ d → c ≠ B[d] →
+    cand boolKws (B.take d ++ [c]) = [] ∧ (cand boolKws (B.take d)).any (fun i => boolKws.getD i [] == B.take d) = false
+
+theorem boolKws_eq : boolKws = [['T', 'R', 'U', 'E'], ['F', 'A', 'L', 'S', 'E']] := by decide
+
+theorem boolGivesUp_true : BoolGivesUp ['T', 'R', 'U', 'E'] 0 := by
+  intro d c hd h1 hc
+  have hd' : d = 1 ∨ d = 2 ∨ d = 3 := by simp at hd; omega
+  rw [boolKws_eq]
+  rcases hd' with rfl | rfl | rfl
+  all_goals
+    simp [cand, List.range, List.range.loop, startsWith, List.isPrefixOf, List.filter] at hc ⊢
+    split <;> simp_all
+
+theorem boolGivesUp_false : BoolGivesUp ['F', 'A', 'L', 'S', 'E'] 1 := by
+  intro d c hd h1 hc
+  have hd' : d = 1 ∨ d = 2 ∨ d = 3 ∨ d = 4 := by simp at hd; omega
+  rw [boolKws_eq]
+  rcases hd' with rfl | rfl | rfl | rfl
+  all_goals
+    simp [cand, List.range, List.range.loop, startsWith, List.isPrefixOf, List.filter] at hc ⊢
+    split <;> simp_all
+
+theorem kwAdd_empty (k : KwSt) (ch : Char) (h : (kwNew k ch).isEmpty = true) :
+    kwAdd k ch =
+      (match k.expected with
+       | some e => if e.any (fun i => k.kws.getD i [] == (k.cur ++ [ch]).dropLast) then ({ k with cur := k.cur ++ [ch] }, .F)
+                   else ({ k with cur := k.cur ++ [ch] }, .Reset)
+       | none => ({ k with cur := k.cur ++ [ch] }, .Reset)) := by
+  unfold kwAdd
+  show (if (kwNew k ch).isEmpty = true then _ else _) = _
+  rw [h]
+  rfl
+
+/-- where the name departs from the keyword the Boolean class gives up and the scanner goes back to the start of the name -/
+theorem lexStep_bool_departs (vars : List Str) (x B : Str) (iB : Nat) (hg : BoolGivesUp B iB)
+    (d : Nat) (hd : Departs x B d) (k : KwSt) (hk : KwInv boolKws B d k) :
+    lexStep vars (x[d]'hd.ltx) (boolSt x d k) = .ok resetSt := by
+  obtain ⟨h1, h2, h3⟩ := hk
+  have hne := hd.differ hd.ltx hd.ltB
+  obtain ⟨g1, g2⟩ := hg d (x[d]'hd.ltx) hd.ltB hd.pos hne
+  have hnew : kwNew k (x[d]'hd.ltx) = [] := by
+    unfold kwNew
+    rw [h1, h3, h2, cand_snoc, g1]
+  have hkws : k.kws.isEmpty = false := by rw [h1]; decide
+  have hdrop : (k.cur ++ [x[d]'hd.ltx]).dropLast = B.take d := by rw [h2]; simp
+  have hadd : ∃ k1, kwAdd k (x[d]'hd.ltx) = (k1, .Reset) := by
+    rw [kwAdd_empty k _ (by rw [hnew]; rfl)]
+    cases he : k.expected with
+    | none => exact ⟨_, rfl⟩
+    | some e =>
+      have hee : e = cand boolKws (B.take d) := by rw [he] at h3; exact h3
+      simp only [hdrop, h1, hee, g2, Bool.false_eq_true, if_false]
+      exact ⟨_, rfl⟩
+  obtain ⟨k1, hadd⟩ := hadd
+  simp [lexStep, boolSt, addChar, hkws, hadd, resolve, resetS, resetSt, TokSt.cls]
+
+/-- what the first character of a name must be for the string and number classes to decline it -/
+structure NameStart0 (c : Char) : Prop where
+  sp : isSpace c = false
+  quote : (c == '"') = false
+  dig : isDigitC c = false
+  minus : (c == '-') = false
+  dot : (c == '.') = false
+
+/-- back at the start with the Boolean class black-listed: the Variable class takes the first character -/
+theorem lexStep_name_restart (names : List Str) (x : Str) (ix : Nat) (hix : ix < names.length) (hx : names.getD ix [] = x)
+    (hlen : 1 < x.length) (hc : NameStart0 (x[0])) :
+    ∃ k', lexStep names (x[0]) resetSt = .ok (varSt x 1 k') ∧ KwInv names x 1 k' := by
+  have hk0 : KwInv names x 0 { kws := names } := ⟨rfl, by simp, by simp [cand_nil]⟩
+  obtain ⟨k', r, hadd, hinv, hr⟩ := kwAdd_name names x ix hix hx 0 (by omega) { kws := names } hk0
+  have hrT : r = .T := by
+    rcases hr with h | ⟨_, hend⟩
+    · exact h
+    · omega
+  subst hrT
+  have hne : names.isEmpty = false := names_ne_nil names ix hix
+  have hq' : (x[0] != '"') = true := by simp [bne, hc.quote]
+  have ht1 : x.take 1 = [x[0]] := by
+    cases x with
+    | nil => simp at hlen
+    | cons a b => simp
+  refine ⟨k', ?_, hinv⟩
+  simp [lexStep, resetSt, hc.sp, valueClasses, verifyChar, fresh, addChar, hc.quote, hq', hc.dig, hc.minus, hc.dot, resolve,
+    hne, hadd, varSt, ht1]
+
+/-- the Boolean phase: from `j` agreeing characters to `d` -/
+theorem lexLoop_bool (vars : List Str) (x B : Str) (iB : Nat) (hiB : iB < boolKws.length) (hB : boolKws.getD iB [] = B)
+    (d : Nat) (hd : Departs x B d) :
+    ∀ (m j : Nat) (k : KwSt), j + m = d → KwInv boolKws B j k → ∀ f,
+      ∃ k', lexLoop vars x.toArray (f + m) (boolSt x j k) = lexLoop vars x.toArray f (boolSt x d k') ∧ KwInv boolKws B d k' := by
+  intro m
+  induction m with
+  | zero =>
+    intro j k hj hk f
+    have : j = d := by omega
+    subst this
+    exact ⟨k, rfl, hk⟩
+  | succ m ih =>
+    intro j k hj hk f
+    have hjx : j < x.length := by have := hd.ltx; omega
+    obtain ⟨k1, hstep, hinv⟩ := lexStep_bool_agree vars x B iB hiB hB d hd j (by omega) k hk
+    obtain ⟨k', hrest, hk'⟩ := ih (j + 1) k1 (by omega) hinv f
+    refine ⟨k', ?_, hk'⟩
+    rw [← hrest, show f + (m + 1) = (f + m) + 1 by omega, lexLoop]
+    have hidx : (boolSt x j k).idx < x.toArray.size := by simpa [boolSt] using hjx
+    simp only [hidx, dite_true]
+    have hstep' : lexStep vars (x.toArray[(boolSt x j k).idx]'hidx) (boolSt x j k) = .ok (boolSt x (j + 1) k1) := by
+      simpa [boolSt] using hstep
+    rw [hstep']
+
+/-- more fuel never changes a finished scan -/
+theorem lexLoop_mono (vars : List Str) (arr : Array Char) : ∀ (f : Nat) (s s' : LS), lexLoop vars arr f s = .ok s' →
+    ∀ g, lexLoop vars arr (f + g) s = .ok s' := by
+  intro f
+  induction f with
+  | zero => intro s s' h; simp [lexLoop] at h
+  | succ f ih =>
+    intro s s' h g
+    rw [show f + 1 + g = (f + g) + 1 by omega, lexLoop]
+    rw [lexLoop] at h
+    split
+    · rename_i hidx
+      simp only [hidx, dite_true] at h
+      cases hstep : lexStep vars arr[s.idx] s with
+      | ok s1 => rw [hstep] at h; exact ih s1 s' h g
+      | cerr k => rw [hstep] at h; cases h
+      | crash e => rw [hstep] at h; cases h
+      | oom w => rw [hstep] at h; cases h
+    · rename_i hidx
+      simp only [hidx, dite_false] at h
+      exact h
+
+/-- **a name beginning with T or F** that departs from TRUE / FALSE before either ends is one Variable token too -/
+theorem lex_name_tf (names : List Str) (x B : Str) (iB : Nat) (hiB : iB < boolKws.length) (hB : boolKws.getD iB [] = B)
+    (hg : BoolGivesUp B iB) (d : Nat) (hd : Departs x B d) (hin : names.contains x = true) (hc : NameStart0 (x[0]'(by have := hd.ltx; omega))) :
+    lex names x = .ok [⟨.var, x, false⟩] := by
+  have hlen : 1 < x.length := by have := hd.ltx; have := hd.pos; omega
+  have hmem : x ∈ names := by simpa using hin
+  obtain ⟨ix, hix, hxi⟩ := List.getElem_of_mem hmem
+  have hx : names.getD ix [] = x := by simp [List.getD, hix, hxi]
+  -- the first character enters the Boolean class
+  have hB0 : 0 < B.length := by have := hd.ltB; omega
+  have hk0 : KwInv boolKws B 0 { kws := boolKws } := ⟨rfl, by simp, by simp [cand_nil]⟩
+  have hch0 : x[0] = B[0] := getElem_of_take_eq x B d 0 hd.agree (by have := hd.pos; omega) (by omega) hB0
+  obtain ⟨kb, r, haddb, hinvb, hr⟩ := kwAdd_name boolKws B iB hiB hB 0 hB0 { kws := boolKws } hk0
+  have hrT : r = .T := by
+    rcases hr with h | ⟨_, hend⟩
+    · exact h
+    · have := hd.ltB; have := hd.pos; omega
+  subst hrT
+  have hq' : (x[0] != '"') = true := by simp [bne, hc.quote]
+  have hbk : boolKws.isEmpty = false := by decide
+  have ht1 : x.take 1 = [x[0]] := by
+    cases x with
+    | nil => simp at hlen
+    | cons a b => simp
+  have hfirst : lexStep names (x[0]) {} = .ok (boolSt x 1 kb) := by
+    rw [← hch0] at haddb
+    simp [lexStep, hc.sp, valueClasses, verifyChar, fresh, addChar, hc.quote, hq', hc.dig, hc.minus, hc.dot, resolve, hbk, haddb,
+      boolSt, ht1]
+  -- the remaining Boolean characters, the departure, the restart, the Variable characters
+  obtain ⟨kd, hbool, hkd⟩ := lexLoop_bool names x B iB hiB hB d hd (d - 1) 1 kb (by have := hd.pos; omega) hinvb (x.length + 2)
+  have hdep := lexStep_bool_departs names x B iB hg d hd kd hkd
+  obtain ⟨kv, hrestart, hkv⟩ := lexStep_name_restart names x ix hix hx hlen hc
+  obtain ⟨s, hs, hdone⟩ := lexLoop_name names names x ix hix hx hin (x.length - 1) 1 kv (by omega) hkv (x.length) (by omega)
+  have h2 : lexLoop names x.toArray (x.length + 1) resetSt = .ok s := by
+    rw [lexLoop]
+    have hidx : resetSt.idx < x.toArray.size := by simp [resetSt]; omega
+    simp only [hidx, dite_true]
+    have : lexStep names (x.toArray[resetSt.idx]'hidx) resetSt = .ok (varSt x 1 kv) := by simpa [resetSt] using hrestart
+    rw [this]; exact hs
+  have h1 : lexLoop names x.toArray (x.length + 2) (boolSt x d kd) = .ok s := by
+    rw [lexLoop]
+    have hidx : (boolSt x d kd).idx < x.toArray.size := by simpa [boolSt] using hd.ltx
+    simp only [hidx, dite_true]
+    have : lexStep names (x.toArray[(boolSt x d kd).idx]'hidx) (boolSt x d kd) = .ok resetSt := by simpa [boolSt] using hdep
+    rw [this]; exact h2
+  have h0 : lexLoop names x.toArray (x.length + 2 + (d - 1)) (boolSt x 1 kb) = .ok s := by rw [hbool]; exact h1
+  have hstart : lexLoop names x.toArray (x.length + 2 + (d - 1) + 1) {} = .ok s := by
+    rw [lexLoop]
+    have hidx : ({} : LS).idx < x.toArray.size := by simp; omega
+    simp only [hidx, dite_true]
+    have : lexStep names (x.toArray[({} : LS).idx]'hidx) {} = .ok (boolSt x 1 kb) := by simpa using hfirst
+    rw [this]; exact h0
+  have hloop : lexLoop names x.toArray (lexFuel x.length) {} = .ok s := by
+    have hfuel : lexFuel x.length = (x.length + 2 + (d - 1) + 1) + ((x.length + 1) * 12 + 10 - (x.length + 2 + (d - 1) + 1)) := by
+      unfold lexFuel; have := hd.ltx; omega
+    rw [hfuel]
+    exact lexLoop_mono names x.toArray _ _ _ hstart _
+  unfold lex
+  rw [hloop]
+  rcases hdone with rfl | ⟨k, rfl, hk⟩
+  · simp [lexFinish, doneSt, lexResult]
+  · simp [lexFinish, varSt, appendSwitch, TokSt.closed, setValueCheck, TokSt.cls, TokSt.kws, hk, hmem, TokSt.opp, lexResult]
+
+/-- from the scanner's answer to the value -/
+theorem tokenize_of_lex_var (vars : VarEnv) (x : Str) (v : Val) (hv : vars.lookup x = some v)
+    (hlex : lex (vars.map (·.1)) x = .ok [⟨.var, x, false⟩]) : tokenize vars x = .ok v.normalise := by
+  unfold tokenize evalFuel
+  rw [solveOpp]
+  simp only [hlex, Outcome.bind_ok, toFlat, toFlat.go, Option.map_some, reduceAll_nil,
+    List.isEmpty_nil, Bool.not_true, Bool.false_eq_true, if_false]
+  have hf : ∃ f, 3 * x.length + 9 = f + 1 + 1 := ⟨3 * x.length + 7, by omega⟩
+  obtain ⟨f, hf⟩ := hf
+  rw [hf, evalTree, evalTok]
+  simp only [hv, Outcome.bind_ok]
+
+end Duckling
